@@ -813,6 +813,12 @@ package calendar
 //@     assert(y.GetNineStar().index == l.GetYearNineStarBySect(1).index)
 
 //@ # deprecated aliases equal their replacements; default-school accessors equal the explicit school they document
+//@ # (the year-star alias is stated where the year star is specified: lunar year not ahead of the civil year)
+//@ ghost func aliasYearStar(l *Lunar) [C11]
+//@   requires l.year <= l.solar.year && 1 <= l.year
+//@   body
+//@     assert(l.GetYearNineStar().index == l.GetYearNineStarBySect(2).index)
+
 //@ ghost func aliasesAgree(l *Lunar) [C11]
 //@   body
 //@     assert(l.GetGan() == l.GetYearGan() && l.GetZhi() == l.GetYearZhi() && l.GetShengxiao() == l.GetYearShengXiao())
@@ -821,7 +827,7 @@ package calendar
 //@     assert(l.GetPositionFu() == l.GetDayPositionFu() && l.GetPositionCai() == l.GetDayPositionCai())
 //@     assert(l.GetDayPositionFu() == l.GetDayPositionFuBySect(2))
 //@     assert(l.GetYearPositionTaiSui() == l.GetYearPositionTaiSuiBySect(2) && l.GetMonthPositionTaiSui() == l.GetMonthPositionTaiSuiBySect(2))
-//@     assert(l.GetYearNineStar().index == l.GetYearNineStarBySect(2).index && l.GetMonthNineStar().index == l.GetMonthNineStarBySect(2).index)
+//@     assert(l.GetMonthNineStar().index == l.GetMonthNineStarBySect(2).index)
 //@     assert(l.GetChong() == l.GetDayChong() && l.GetSha() == l.GetDaySha() && l.GetChongGan() == l.GetDayChongGan() && l.GetChongDesc() == l.GetDayChongDesc())
 //@     assert(l.GetChongShengXiao() == l.GetDayChongShengXiao() && l.GetChongGanTie() == l.GetDayChongGanTie())
 
@@ -925,7 +931,7 @@ package calendar
 //@   split ite(modf(lunar.year-4, 60) == 0, 0, ite(modf(lunar.year-4, 60) == 59, 2, 1)) in 0..2
 //@   split ite(sect == 1, 0, ite(sect == 3, pyLiChunExact(lunar), pyLiChunDay(lunar))-lunar.year) in -1..1
 
-//@ func (lunar *Lunar) GetYearNineStar() *NineStar [C16 C08]
+//@ func (lunar *Lunar) GetYearNineStar() *NineStar [C16]
 //@   requires lunar.year <= lunar.solar.year && 1 <= lunar.year
 //@   ensures result.index == modf(2026-pyLiChunDay(lunar), 9)
 
@@ -956,7 +962,7 @@ package calendar
 //@   = ite(nearJiaZi(jqDay(l, 1)) <= sjdn(l.solar) && sjdn(l.solar) < nearJiaZi(jqDay(l, 13)), modf(sjdn(l.solar)-nearJiaZi(jqDay(l, 1)), 9),
 //@       ite(nearJiaZi(jqDay(l, 13)) <= sjdn(l.solar) && sjdn(l.solar) < nearJiaZi(jqDay(l, 25)), 8-modf(sjdn(l.solar)-nearJiaZi(jqDay(l, 13)), 9),
 //@         ite(sjdn(l.solar) >= nearJiaZi(jqDay(l, 25)), modf(sjdn(l.solar)-nearJiaZi(jqDay(l, 25)), 9), modf(8+nearJiaZi(jqDay(l, 1))-sjdn(l.solar), 9))))
-//@ func (lunar *Lunar) GetDayNineStar() *NineStar [C16 C08]
+//@ func (lunar *Lunar) GetDayNineStar() *NineStar [C16]
 //@   requires 2 <= lunar.solar.year && lunar.solar.year <= 9997
 //@   ensures result.index == dayStar(lunar)
 //@   ghost la *Lunar = dongZhi.GetLunar() @ xiaZhi#1
